@@ -2,7 +2,8 @@
 
 Contracts (contracts/py_wiring.py c05_*): Numerics.trapz rule, _from_phi_1D_direct / _from_phi_2D_direct entry-wise closed forms with the
 total-equals-trapezoid-mass lemma (binomial theorem, ring normaliser), from_phi dispatch and bookkeeping for 1-4 populations, roles of the
-inbreeding arguments.  The semi-analytic (incomplete-beta / linear-algebra), admixture and inbreeding samplers stay with the bounded drivers.
+inbreeding arguments.  the semi-analytic samplers (1-D incomplete-beta form and the 2-5-D linear-algebra recursion) entry-wise equal to the tensor product of the exact
+piecewise-linear sampling operator, each axis with its own sample size (betainc uninterpreted).  Admixture and inbreeding samplers stay with the bounded drivers.
 """
 from vf.helpers import bounded_tasks
 
@@ -21,8 +22,12 @@ def tasks(tier):
           W('direct_1d.n3_G4', 'c05_direct_1d', n=3, G=4), W('direct_1d.n2_G3_het', 'c05_direct_1d', n=2, G=3, het='xx'),
           W('direct_2d.2_1_G3', 'c05_direct_2d', nx=2, ny=1, G=3)]
     ts += [W('dispatch.%dD' % P, 'c05_from_phi_dispatch', P=P) for P in (1, 2, 3, 4)]
+    ts += [W('analytic_1d.n3_G4', 'c05_analytic_1d', n=3, G=4), W('cached_dbeta.n2_G3', 'c05_cached_dbeta', n=2, G=3)]
+    ts += [W('linalg.%s_G%d' % ('_'.join(map(str, ns)), G), 'c05_linalg', ns=list(ns), G=G)
+           for ns, G in (((1, 2), 3), ((1, 2, 1), 2), ((1, 1, 1, 2), 2), ((1, 1, 2, 1, 1), 2))]
     if tier == 'thorough':
-        ts += [W('direct_1d.n6_G6', 'c05_direct_1d', n=6, G=6), W('direct_1d.n4_G5_het', 'c05_direct_1d', n=4, G=5, het='xx'),
+        ts += [W('analytic_1d.n5_G5', 'c05_analytic_1d', n=5, G=5), W('linalg.2_3_G3', 'c05_linalg', ns=[2, 3], G=3), W('linalg.2_1_2_G2', 'c05_linalg', ns=[2, 1, 2], G=2),
+               W('direct_1d.n6_G6', 'c05_direct_1d', n=6, G=6), W('direct_1d.n4_G5_het', 'c05_direct_1d', n=4, G=5, het='xx'),
                W('direct_2d.2_2_G4', 'c05_direct_2d', nx=2, ny=2, G=4)]
     return ts + bounded_tasks('C05', tier)
 
